@@ -189,10 +189,43 @@ def gen_target(tp, st, self_id):
     return ['obj', tp.choice(nodes)]
 
 
+def gen_xop(tp, xst):
+    """An operation on a node of the second server (real-time mode only)."""
+    r = tp.draw(10)
+    if r < 3 or not xst['nodes']:
+        uid = f'x{xst["n"]}'
+        xst['n'] += 1
+        xst['nodes'].append(uid)
+        tgt = tp.choice(xst['groups']) if xst['groups'] and tp.draw(2) \
+            else None
+        if tp.draw(2):
+            xst['groups'].append(uid)
+            return ['x', 'group', uid, tgt]
+        return ['x', 'synth', uid, tgt]
+    n = tp.choice(xst['nodes'])
+    if r < 6:
+        tgt = tp.choice(xst['groups']) if xst['groups'] and tp.draw(2) \
+            else None
+        if tgt == n:
+            tgt = None
+        return ['x', 'move', n, tp.choice(['head', 'tail']), tgt]
+    if r < 8:
+        return ['x', 'set', n, tp.choice(NUMS)]
+    if r < 9:
+        return ['x', 'run', n]
+    xst['nodes'].remove(n)
+    if n in xst['groups']:
+        xst['groups'].remove(n)
+    return ['x', 'free', n]
+
+
 def gen_case(tp, tier):
     big = tier == 'thorough'
     st = {'n': 0, 'synth': [], 'group': [], 'buf': [], 'abus': [], 'cbus': []}
     ops = []
+    # swarm: one case in three also talks to a second, non-default server
+    other = tp.draw(3) == 0
+    xst = {'n': 0, 'nodes': [], 'groups': []}
     for _ in range(4 + tp.draw(36 if big else 20)):
         if tp.draw(6) == 0:
             inner = [gen_op(tp, st, True) for _ in range(1 + tp.draw(6))]
@@ -205,6 +238,8 @@ def gen_case(tp, tier):
                             tp.draw(4) == 0])
             else:
                 ops.append(['bind', inner, raise_at])
+        elif other and tp.draw(5) == 0:
+            ops.append(gen_xop(tp, xst))
         else:
             ops.append(gen_op(tp, st))
     knobs = C.gen_knobs(tp, fault_free_pm=300, max_steps=60000)
@@ -309,6 +344,15 @@ def run_world(case, tape, ctx, w):
         s._set_client_id(case['client_id'])
     cid = s.client_id
     latency = s.latency
+    ADDR1 = ('127.0.0.1', 57110)
+    ADDR2 = ('127.0.0.1', 57111)
+    s2 = None
+    xreal = {}
+    if rt and any(op[0] == 'x' for op in case['ops']):
+        import sc3.base.netaddr as snad
+        s2 = ssrv.Server('other', snad.NetAddr(*ADDR2))
+        FS.FakeServer(w.net, ADDR2)
+    dest = [ADDR1]          # where the commands of the current op must go
 
     def bump(key, n=1):
         stats[key] = stats.get(key, 0) + n
@@ -423,10 +467,62 @@ def run_world(case, tape, ctx, w):
                 m = ['/b_query', num]
                 return osc.encode_message(m[0], m[1:]) if rt else m
         return arg, wire
+    def perform_x(op):
+        """Operations on nodes of the second server: same commands, other
+        wire."""
+        sub = op[1]
+        bump('other-server-ops')
+        if sub in ('group', 'synth'):
+            _, _, uid, tgt = op
+            tobj = xreal.get(tgt) if tgt is not None else s2
+            if tobj is None:
+                tobj = s2
+            tid = tobj.node_id if tobj is not s2 else \
+                s2.default_group.node_id
+            if sub == 'group':
+                n = snod.Group(tobj)
+                exp = ['/g_new', n.node_id, 0, tid]
+            else:
+                n = snod.Synth('default', None, tobj)
+                exp = ['/s_new', 'default', n.node_id, 0, tid]
+            xreal[uid] = n
+            return [('m', exp)]
+        n = xreal.get(op[2])
+        if n is None:
+            return []
+        nid = n.node_id
+        if sub == 'move':
+            how, tgt = op[3], op[4]
+            tg = xreal.get(tgt) if tgt is not None else None
+            if tg is None:
+                getattr(n, 'move_to_' + how)()
+                gid = s2.default_group.node_id
+            else:
+                getattr(n, 'move_to_' + how)(tg)
+                gid = tg.node_id
+            return [('m', ['/g_' + how, gid, nid])]
+        if sub == 'set':
+            n.set('amp', op[3])
+            return [('m', ['/n_set', nid, 'amp', op[3]])]
+        if sub == 'run':
+            n.run(False)
+            return [('m', ['/n_run', nid, 0])]
+        if sub == 'free':
+            n.free()
+            del xreal[op[2]]
+            return [('m', ['/n_free', nid])]
+        raise ValueError(op)
+
     def perform(op):
         kind = op[0]
+        dest[0] = ADDR1
         if kind == 'nop':
             return []
+        if kind == 'x':
+            if s2 is None:
+                return []
+            dest[0] = ADDR2
+            return perform_x(op)
         if kind == 'synth':
             _, sid, dname, args, tgt, action, as_list = op
             tobj, tid = target_of(tgt)
@@ -647,7 +743,12 @@ def run_world(case, tape, ctx, w):
         if rt:
             me = k.current.idx
             for now, src, dst, data, idx in w.net.captured[mark:]:
-                if idx != me or dst != ('127.0.0.1', 57110):
+                if idx == me and dst in (ADDR1, ADDR2) and dst != dest[0]:
+                    viol.add('C17-1', 'command-to-another-server',
+                             f'a command for the server at {dest[0]} went to '
+                             f'{dst}: {osc.try_decode(data)[0]!r}')
+                    continue
+                if idx != me or dst != dest[0]:
                     continue
                 pkt, err = osc.try_decode(data)
                 if err:
@@ -785,6 +886,7 @@ def run_world(case, tape, ctx, w):
             t_logical_window[1] = elapsed()
             got = wire_since(mark)
             compare(op, exp, got, t_logical)
+            dest[0] = ADDR1
             bump('ops')
 
     def flat_msgs(exp):
